@@ -57,6 +57,20 @@ impl<K, V> OrderedQueue<K, V> {
             return Err(Error::Stale { key, value });
         }
 
+        // Merge with (or conflict with) an entry that is already buffered under this key;
+        // neither needs room, so nothing is evicted for it
+        if let Some(existing) = self.map.get_mut(&key) {
+            if value.key_eq(existing) {
+                existing.merge(value);
+                return Ok(InsertResult {
+                    next: None,
+                    merged_with_existing: true,
+                    evicted: None,
+                });
+            }
+            return Err(Error::Conflict { value });
+        }
+
         // Evict a record if we're full
         let mut evicted = None;
         if self.map.len() >= self.limit {
@@ -68,29 +82,12 @@ impl<K, V> OrderedQueue<K, V> {
             }
         }
 
-        // Insert or merge
-        match self.map.entry(key) {
-            Entry::Vacant(entry) => {
-                entry.insert(value);
-                Ok(InsertResult {
-                    next: None,
-                    merged_with_existing: false,
-                    evicted,
-                })
-            }
-            Entry::Occupied(mut entry) => {
-                if value.key_eq(entry.get()) {
-                    entry.get_mut().merge(value);
-                    Ok(InsertResult {
-                        next: None,
-                        merged_with_existing: true,
-                        evicted,
-                    })
-                } else {
-                    Err(Error::Conflict { value })
-                }
-            }
-        }
+        self.map.insert(key, value);
+        Ok(InsertResult {
+            next: None,
+            merged_with_existing: false,
+            evicted,
+        })
     }
 
     pub fn pop(&mut self) -> Option<V>
